@@ -551,6 +551,192 @@ def job_beam_results(cfg):
     return res
 
 
+def job_hyper(cfg):
+    """HyperElastic (SaintVenantKirchhoff, Newmark) on a mixed TRI3 + QUAD4 mesh, havoc u, v, a: strain results against E = 1/2 (F^T F - I)
+    built from the nodal displacements and the groups' shape-function gradients (independent of HyperElasticState), stress results against
+    S = lambda tr(E) I + 2 mu E, W_e against the integral of lambda/2 tr(E)^2 + mu E:E with the weighted Jacobians, W = sum W_e; vector / norm /
+    matrix results of u, v, a"""
+    from EasyFEA import Simulations, Models
+    from EasyFEA.FEM import MatrixType
+
+    res = JobResult(cfg)
+    c = new_context()
+    facade.install()
+    lm, mu, th = Fraction(3), Fraction(5, 4), Fraction(3, 4)
+
+    def build():
+        mesh = simlib.small_mesh(cfg.get("mesh", "mixed"))
+        mat = Models.HyperElastic.SaintVenantKirchhoff(2, lmbda=float(lm), mu=float(mu), thickness=float(th))
+        sm = Simulations.HyperElastic(mesh, mat, verbosity=False)
+        sm.Solver_Set_Hyperbolic_Algorithm(dt=0.1)
+        return mesh, sm
+
+    mesh, simu = build()
+    dim = 2
+    n = mesh.Nn * dim
+    u = sym_array("u", n, Fraction(-1, 4), Fraction(1, 4))
+    v, a = sym_array("v", n), sym_array("a", n)
+    res.symbols = 3 * n
+    key = f"hyperelastic SaintVenantKirchhoff 2-D {cfg.get('mesh', 'mixed')}"
+    res.functions |= {"HyperElastic.Result", "HyperElastic.Results_Available", "HyperElastic._Calc_GreenLagrange", "HyperElastic._Calc_SecondPiolaKirchhoff", "HyperElastic._Calc_W",
+                      "Models._utils.Result_strain_or_stress_field_e", "HyperElasticState.Compute_GreenLagrange", "SaintVenantKirchhoff.Compute_W", "SaintVenantKirchhoff.Compute_dWde"}
+    pt = simu.problemType
+    names = simu.Results_Available()
+    mark = c.mark()
+    got, failed = {}, {}
+    with facade.symbolic():
+        simu._Set_solutions(pt, u.copy(), v.copy(), a.copy())
+        for name in names:
+            for nv in (False, True):
+                if name in ("W",) and nv:
+                    continue
+                try:
+                    got[(name, nv)] = simu.Result(name, nodeValues=nv)
+                except Exception as e:
+                    failed[(name, nv)] = f"{type(e).__name__}: {e}"[:120]
+        own_E = [np.asarray(simu._Calc_GreenLagrange(groupElem=g), dtype=object) for g in mesh.Get_list_groupElem()]
+        own_S = [np.asarray(simu._Calc_SecondPiolaKirchhoff(groupElem=g), dtype=object) for g in mesh.Get_list_groupElem()]
+    pcs = c.pc_since(mark)
+    res.paths, res.path_conditions = 1, len(pcs)
+
+    def vm_of(fields):
+        """von Mises norm per Gauss point of the code's own Kelvin-Mandel field (3 components: 2-D formula, 6 components: 3-D formula), element mean"""
+        inv_r2 = Fraction(float(1 / np.sqrt(2)))
+        out = []
+        for F in fields:
+            Ne_, nPg_, nc_ = F.shape
+            nn = 2 if nc_ == 3 else 3
+            for e in range(Ne_):
+                acc = 0
+                for p_ in range(nPg_):
+                    G = [F[e, p_, k] if k < nn else F[e, p_, k] * inv_r2 for k in range(nc_)]
+                    q = (G[0] ** 2 + G[1] ** 2 - G[0] * G[1] + 3 * G[2] ** 2) if nc_ == 3 else ((G[0] - G[1]) ** 2 + (G[1] - G[2]) ** 2 + (G[2] - G[0]) ** 2 + 6 * (G[5] ** 2 + G[3] ** 2 + G[4] ** 2)) / 2
+                    acc = acc + root(q, 2)
+                out.append(acc / nPg_)
+        return np.array(out, dtype=object)
+
+    def kinematics(msh, uu, exact=True):
+        """per main group: E (Ne, nPg, 3, 3) from F = I + grad u, weights (Ne, nPg)"""
+        out = []
+        for g in msh.Get_list_groupElem(dim):
+            dN = np.asarray(g.Get_dN_e_pg(MatrixType.rigi))
+            wJ = np.asarray(g.Get_weightedJacobian_e_pg(MatrixType.rigi))
+            Ne, nPg = dN.shape[:2]
+            E = np.zeros((Ne, nPg, 3, 3), dtype=object if exact else float)
+            for e in range(Ne):
+                for p_ in range(nPg):
+                    G = [[0, 0, 0], [0, 0, 0], [0, 0, 0]]
+                    for i in range(dim):
+                        for j in range(dim):
+                            G[i][j] = sum(uu[int(g.connect[e, k]) * dim + i] * (Fraction(float(dN[e, p_, j, k])) if exact else float(dN[e, p_, j, k])) for k in range(g.nPe))
+                    for i in range(3):
+                        for j in range(3):
+                            E[e, p_, i, j] = (G[i][j] + G[j][i] + sum(G[k][i] * G[k][j] for k in range(3))) / 2
+            out.append((E, wJ))
+        return out
+
+    def oracles(msh, uu, exact=True):
+        lam, mu_, th_ = (lm, mu, th) if exact else (float(lm), float(mu), float(th))
+        Em, Sm, We, Evm, Svm = [], [], [], [], []
+        for E, wJ in kinematics(msh, uu, exact):
+            Ne, nPg = E.shape[:2]
+            for e in range(Ne):
+                accE, accS, w, evm, svm = [0] * 6, [0] * 3, 0, 0, 0
+                for p_ in range(nPg):
+                    T = E[e, p_]
+                    tr = T[0, 0] + T[1, 1] + T[2, 2]
+                    S = [[lam * tr * (1 if i == j else 0) + 2 * mu_ * T[i, j] for j in range(3)] for i in range(3)]
+                    ev = [T[0, 0], T[1, 1], T[2, 2], T[1, 2], T[0, 2], T[0, 1]]
+                    sv = [S[0][0], S[1][1], S[0][1]]
+                    accE = [x + y for x, y in zip(accE, ev)]
+                    accS = [x + y for x, y in zip(accS, sv)]
+                    EE = sum(T[i, j] * T[i, j] for i in range(3) for j in range(3))
+                    w = w + (Fraction(float(wJ[e, p_])) if exact else float(wJ[e, p_])) * (lam / 2 * tr * tr + mu_ * EE)
+                    qE = ((ev[0] - ev[1]) ** 2 + (ev[1] - ev[2]) ** 2 + (ev[2] - ev[0]) ** 2 + 6 * (ev[5] ** 2 + ev[3] ** 2 + ev[4] ** 2)) / 2   # 6-component field: 3-D formula
+                    qS = sv[0] ** 2 + sv[1] ** 2 - sv[0] * sv[1] + 3 * sv[2] ** 2                                                            # 3-component field: 2-D formula
+                    if not exact:
+                        evm = evm + float(qE) ** 0.5
+                        svm = svm + float(qS) ** 0.5
+                Em.append([x / nPg for x in accE]); Sm.append([x / nPg for x in accS]); We.append(th_ * w); Evm.append(evm / nPg); Svm.append(svm / nPg)
+        return {"Green-Lagrange": np.array(Em, dtype=object if exact else float), "Piola-Kirchhoff": np.array(Sm, dtype=object if exact else float),
+                "W_e": np.array(We, dtype=object if exact else float), "Evm": np.array(Evm, dtype=object if exact else float), "Svm": np.array(Svm, dtype=object if exact else float)}
+
+    O = oracles(mesh, u)
+    O["Evm"], O["Svm"] = vm_of(own_E), vm_of(own_S)  # dispatch / scaling / averaging against the code's own fields (the fields themselves: rows above)
+    O.update({"Exx": O["Green-Lagrange"][:, 0], "Eyy": O["Green-Lagrange"][:, 1], "Exy": O["Green-Lagrange"][:, 5], "Sxx": O["Piola-Kirchhoff"][:, 0], "Syy": O["Piola-Kirchhoff"][:, 1], "Sxy": O["Piola-Kirchhoff"][:, 2]})
+    vec = {"displacement": u, "speed": v, "accel": a}
+    comp = {p_ + d: (vv, i) for p_, vv in (("u", u), ("v", v), ("a", a)) for i, d in enumerate("xy")}
+
+    def want_of(name, uu, vv, aa, Or, exact=True):
+        if name in Or:
+            return Or[name], "element"
+        vs = {"displacement": uu, "speed": vv, "accel": aa}
+        if name in vs:
+            return vs[name], "raw"
+        if name in comp:
+            src = {"u": uu, "v": vv, "a": aa}[name[0]]
+            return np.asarray(src).reshape(-1, dim)[:, "xy".index(name[1])], "nodal"
+        if name.endswith("_norm"):
+            src = np.asarray(vs[name[:-5]]).reshape(-1, dim)
+            return np.array([(root(sum(x * x for x in row), 2) if exact else float(sum(float(x) ** 2 for x in row)) ** 0.5) for row in src], dtype=object if exact else float), "nodal"
+        if name == "displacement_matrix":
+            M = np.zeros((len(uu) // dim, 3), dtype=object if exact else float)
+            M[:, :dim] = np.asarray(uu).reshape(-1, dim)
+            return M, "nodal"
+        if name == "W":
+            return np.array([sum(Or["W_e"])], dtype=object if exact else float), "scalar"
+        return None, None
+
+    def make_replay(name, nv):
+        def replay(env):
+            uf, vf, af = farr(c, env, u), farr(c, env, v), farr(c, env, a)
+            m2, s2 = build()
+            s2._Set_solutions(pt, uf.copy(), vf.copy(), af.copy())
+            try:
+                r = s2.Result(name, nodeValues=nv)
+            except Exception as e:
+                return True, {"result": name, "raises": f"{type(e).__name__}: {e}"[:160]}
+            if r is None:
+                return True, {"result": name, "returns": None}
+            want, kind = want_of(name, uf, vf, af, oracles(m2, uf, exact=False), exact=False)
+            if want is None:
+                return False, {}
+            want = np.asarray(want, dtype=float)
+            if kind == "element" and nv:
+                want = np.asarray(node_average(m2, want if want.ndim == 2 else want[:, None]), dtype=float)
+                want = want if want.shape[1] > 1 else want[:, 0]
+            elif kind == "nodal" and not nv:
+                return False, {}
+            r = np.asarray(r, dtype=float).reshape(want.shape) if np.asarray(r).size == want.size else np.asarray(r, dtype=float)
+            if r.shape != want.shape:
+                return True, {"result": name, "shape": list(r.shape), "expected_shape": list(want.shape)}
+            err = float(np.abs(r - want).max()) / max(1.0, float(np.abs(want).max()))
+            return err > 1e-8, {"result": name, "nodeValues": nv, "relative_difference": err}
+        return replay
+
+    for (name, nv), val in sorted(got.items(), key=lambda kv: (kv[0][0], kv[0][1])):
+        lab = f"{key} Result('{name}', nodeValues={nv})"
+        want, kind = want_of(name, u, v, a, O)
+        fam = {"element": "strain / stress / energy results", "raw": "vector results", "nodal": "component / norm / matrix results", "scalar": "total energy"}.get(kind, name)
+        if val is None:
+            res.record(lab + " returns a value", Outcome("cex", env={}, how="structure", detail="None"), make_replay(name, nv), key=f"{key}: {fam} - advertised result not implemented")
+            continue
+        if want is None:
+            continue
+        if kind == "element" and nv:
+            w2 = node_average(mesh, want if want.ndim == 2 else want[:, None])
+            want = w2 if want.ndim == 2 else w2[:, 0]
+        elif kind == "nodal" and not nv:
+            continue
+        cmp(res, lab, np.asarray(val, dtype=object).reshape(np.asarray(want).shape) if np.asarray(val, dtype=object).size == np.asarray(want).size else val, want, pcs, make_replay(name, nv), TOL * 10, key=f"{key}: {fam}")
+    for (name, nv), msg in failed.items():
+        res.record(f"{key} Result('{name}', nodeValues={nv}) returns a value", Outcome("cex", env={}, how="structure", detail=msg), make_replay(name, nv), key=f"{key}: advertised result raises")
+    o = prove_abs_le(as_sym(np.asarray(got[("Exx", False)], dtype=object)[0]) * 2 - O["Exx"][0] - 1, TOL, pcs, "twin")
+    res.twin(f"{key} twin", o.status == "cex")
+    res.stubs |= facade.USED_STUBS
+    return res
+
+
 def has_sym_arr(a):
     return any(isinstance(x, Sym) and not x.is_const() for x in np.asarray(a, dtype=object).ravel())
 
@@ -610,7 +796,7 @@ def job_reaction(cfg):
 
 
 def job(cfg):
-    return {"elastic": job_elastic, "reaction": job_reaction, "beam_results": job_beam_results}.get(cfg["sim"], job_simple)(cfg)
+    return {"elastic": job_elastic, "reaction": job_reaction, "beam_results": job_beam_results, "hyper": job_hyper}.get(cfg["sim"], job_simple)(cfg)
 
 
 def main():
@@ -634,6 +820,9 @@ def main():
     for dim in (1, 2, 3):
         for timo in (False, True):
             configs.append({"sim": "beam_results", "dim": dim, "timoshenko": timo})
+    configs.append({"sim": "hyper", "mesh": "mixed"})
+    if tier == "thorough":
+        configs.append({"sim": "hyper", "mesh": "quad2"})
     results = harness.run_jobs(job, configs)
     harness.finish(
         PID, results, t0=t0,
